@@ -137,6 +137,8 @@ T_C18_NoFeatureDisabled == [][NotReset => C18_NoFeatureDisabled_Step]_tvars
 \* END GENERATED STEP WRAPPERS
 
 \* observation-based clauses
+\* C14: the chain's own validators accept every stored id, its parsers recover the parents' ids
+T_C14_ParsersAgree == ("idcheck" \in DOMAIN ob) => Len(ob.idcheck) = 0
 T_C01_WellFormed == Len(ob.malformed) = 0
 T_C01_ChainInvariantAgrees == ob.inv_batch_supply = ""
 
@@ -189,7 +191,7 @@ T_C10_RestartInvisible ==
 
 \* ---- C17: every logged query walk agrees with the specification's operators
 T_C17_Lists ==
-  ev.type = "Query" => \A i \in DOMAIN ob.lists : C17_ListOK(st, ob.lists[i])
+  ev.type = "Query" => \A i \in DOMAIN ob.lists : C17_ListOK(st, ob.lists[i]) /\ C17_AttrsOK(st, ob.lists[i])
 T_C17_Singles ==
   ev.type = "Query" => \A i \in DOMAIN ob.singles : C17_SingleOK(st, ob.singles[i])
 
